@@ -218,7 +218,8 @@ def _merge_and_report(pid, mod, tier, seed, outs, t0, is_replay=False) -> int:
         inconclusive.extend(extra(obs, sets, tier))
 
     lines, n_unknown, known_seen = [], 0, []
-    os.makedirs(os.path.join(ROOT, "replays", pid), exist_ok=True)
+    replay_root = os.environ.get("VERIF_REPLAY_DIR") or os.path.join(ROOT, "replays")
+    os.makedirs(os.path.join(replay_root, pid), exist_ok=True)
     for key in sorted(viol):
         v = viol[key]
         if key in known:
@@ -239,7 +240,7 @@ def _merge_and_report(pid, mod, tier, seed, outs, t0, is_replay=False) -> int:
             "other_witnesses": v["witnesses"][1:],
         }
         name = f"{h64(key + json.dumps(w['case'], sort_keys=True)):016x}.json"
-        path = os.path.join(ROOT, "replays", pid, name)
+        path = os.path.join(replay_root, pid, name)
         with open(path, "w") as f:
             json.dump(rp, f, indent=1)
         lines.append(f"VIOLATION property={pid} replay={path}")
@@ -275,8 +276,9 @@ def _merge_and_report(pid, mod, tier, seed, outs, t0, is_replay=False) -> int:
         "violations": n_unknown,
     }
     if not is_replay:
-        os.makedirs(os.path.join(ROOT, "evidence"), exist_ok=True)
-        with open(os.path.join(ROOT, "evidence", f"{pid}.json"), "w") as f:
+        ev_dir = os.environ.get("VERIF_EVIDENCE_DIR") or os.path.join(ROOT, "evidence")
+        os.makedirs(ev_dir, exist_ok=True)
+        with open(os.path.join(ev_dir, f"{pid}.json"), "w") as f:
             json.dump(ev, f, indent=1, sort_keys=False)
     for ln in lines:
         print(ln)
